@@ -189,7 +189,7 @@ def run(ck: core.Check):
     hcases = []
     stats = {"ops": {}, "violating_histories": 0, "refs": 0}
     for _ in range(n_hist):
-        prog = lf.gen_program(rng, size=rng.randrange(1, 6))
+        prog = lf.gen_program(rng, size=rng.randrange(1, 6), domains=(rng.random() < 0.5))
         ref = lh.gen_reference(rng, prog)
         hist = lh.gen_history(rng, prog, rng.randrange(2, 9))
         hcases.append({"prog": prog, "hist": hist, "ref": ref, "salt": rng.randrange(0, 200)})
